@@ -314,6 +314,21 @@ func vbC04Main(shard, nshards int, tier, out string) {
 	big := strings.Repeat("B", 70000)
 	emit(map[string]string{big: "v"})
 	emit(map[string]string{"k": big})
+	// totals around the round sizes an implementation might take for a limit (64 KiB, 1 MiB, 2 MiB, 16 MiB):
+	// one pair "k" -> value costs 8 + 1 + len(value) bytes of the header block
+	for _, total := range []int{1 << 16, 1 << 20, 1 << 21, 1 << 24} {
+		for _, d := range []int{-1, 0, 1} {
+			emit(map[string]string{"k": strings.Repeat("v", total+d-9)})
+		}
+	}
+	// the same totals reached by many ordinary headers
+	for _, cnt := range []int{3000, 50000} {
+		many := map[string]string{}
+		for i := 0; i < cnt; i++ {
+			many[fmt.Sprintf("header-%06d", i)] = fmt.Sprintf("value-%06d", i)
+		}
+		emit(many)
+	}
 	if tier == "thorough" {
 		// four entries over the short strings
 		short := S[:6]
